@@ -174,3 +174,40 @@ Theorem pattern_error_raises fs cb r root :
   lookup fs r = Some KFile -> is_source_file r = true -> find_root (cb_roots cb) r = Some root ->
   contains_resolved fs cb r = Err "PatternError"%string.
 Proof. intros Hc Hl Hs Hf. unfold contains_resolved. rewrite Hl, Hs, Hf, Hc. reflexivity. Qed.
+
+(* ---------- the property's "if and only if", read off the model ---------- *)
+Theorem contains_iff fs cwd cb s :
+  contains fs cwd cb s = Ok true <->
+  exists r root ps,
+    resolve fs cwd s = Ok r /\ lookup fs r = Some KFile /\ is_source_file r = true /\
+    find_root (cb_roots cb) r = Some root /\ compile false (cb_lines cb) = CPats ps /\
+    ps_match ps (rel_comps root r) = false.
+Proof.
+  unfold contains. split.
+  - destruct (resolve fs cwd s) as [r|e]; [|discriminate]. cbn [bind]. unfold contains_resolved.
+    destruct (lookup fs r) as [[| |]|] eqn:Hl; try discriminate.
+    destruct (is_source_file r) eqn:Hs; [|discriminate]. cbn [negb].
+    destruct (find_root (cb_roots cb) r) as [root|] eqn:Hf; [|discriminate].
+    destruct (compile false (cb_lines cb)) as [ps| |] eqn:Hc; try discriminate.
+    intros [= H]. apply negb_true_iff in H. exists r, root, ps. repeat split; assumption.
+  - intros (r & root & ps & -> & Hl & Hs & Hf & Hc & Hm). cbn [bind]. unfold contains_resolved.
+    rewrite Hl, Hs, Hf, Hc, Hm. reflexivity.
+Qed.
+
+Theorem member_iff fs cwd cb s :
+  member fs cwd cb s = Ok true <->
+  exists r root ps,
+    resolve fs cwd s = Ok r /\ lookup fs r = Some KFile /\ has_language r = true /\
+    find_root_strict (cb_roots cb) r = Some root /\ compile true (cb_lines cb) = CPats ps /\
+    git_ignored ps (map list_of_string (skipn (length root) r)) = false.
+Proof.
+  unfold member. split.
+  - destruct (resolve fs cwd s) as [r|e]; [|discriminate]. cbn [bind]. unfold member_resolved.
+    destruct (lookup fs r) as [[| |]|] eqn:Hl; try discriminate.
+    destruct (has_language r) eqn:Hs; [|discriminate]. cbn [negb].
+    destruct (find_root_strict (cb_roots cb) r) as [root|] eqn:Hf; [|discriminate].
+    destruct (compile true (cb_lines cb)) as [ps| |] eqn:Hc; try discriminate.
+    intros [= H]. apply negb_true_iff in H. exists r, root, ps. repeat split; assumption.
+  - intros (r & root & ps & -> & Hl & Hs & Hf & Hc & Hm). cbn [bind]. unfold member_resolved.
+    rewrite Hl, Hs, Hf, Hc, Hm. reflexivity.
+Qed.
